@@ -12,7 +12,7 @@
 (* successor per stimulus, so TLC's workers generate and judge stimuli of  *)
 (* different jobs in parallel.                                             *)
 (***************************************************************************)
-EXTENDS PdlInherit, PdlSupport, Json, IOUtils
+EXTENDS PdlInherit, PdlSupport, PdlSchema, Json, IOUtils
 
 Descs == ndJsonDeserialize(IOEnv.DESCS)
 Jobs == ndJsonDeserialize(IOEnv.JOBS)
@@ -88,6 +88,7 @@ StimuliFor(j) ==
          IN {[k |-> "enum", bytes |-> LimbsOfBits(x), val |-> NoneV, label |-> <<"inside">>] : x \in inside}
             \cup {[k |-> "enum", bytes |-> LimbsOfBits(x), val |-> NoneV, label |-> <<"above">>] : x \in above}
     [] m = "info" -> {[k |-> "info", bytes |-> <<>>, val |-> NoneV, label |-> <<>>]}
+    [] m = "schema" -> {[k |-> "schema", bytes |-> <<>>, val |-> NoneV, label |-> <<>>]}
     [] OTHER -> {}
 
 Init == job \in 1..Len(Jobs) /\ stim = None
@@ -191,6 +192,7 @@ JavaParseResult(j, s) ==
 
 Emit ==
   \/ stim.k = "none"
+  \/ stim.k = "schema" /\ PrintT(<<"VEC", ToJson([job |-> job, k |-> "schema", schema |-> SchemaOf(D(job))])>>)
   \/ stim.k = "javaparse" /\ PrintT(<<"VEC", ToJson(JavaParseResult(job, stim))>>)
   \/ stim.k = "pyparse" /\ PrintT(<<"VEC", ToJson(PyParseResult(job, stim))>>)
   \/ stim.k = "spec" /\ PrintT(<<"VEC", ToJson(SpecResult(job, stim))>>)
@@ -220,6 +222,23 @@ ReencodeInv ==
       /\ x.refaults \subseteq {"Unsupported"}
       /\ (x.refaults = {} => /\ Len(x.reenc) = Len(stim.bytes)
                              /\ DecodeFull(D(job), T(job), x.reenc).val = x.val)
+
+(* C16 at the design level: a type annotated Static(n) encodes every       *)
+(* well-formed value to exactly n bits (array paddings counted at their     *)
+(* declared size); so does every struct-typed part, since struct types are  *)
+(* themselves jobs of this machine                                          *)
+SizeSoundInv ==
+  stim.k = "enc" =>
+    LET d == D(job)  id == T(job)
+        e == EncodeType(d, id, stim.val)
+        t == TotalSizeOf(d, id)
+    IN (e.faults = {} /\ t.k = "static") => 8 * Len(e.bytes) = t.n
+
+(* and the static-size function the codec itself relies on agrees with it *)
+SizeAgreeInv ==
+  stim.k = "enc" =>
+    LET d == D(job)  id == T(job)  t == TotalSizeOf(d, id)
+    IN (t.k = "static") <=> (StaticBits(d, id) >= 0 /\ StaticBits(d, id) = t.n)
 
 (* C17 at the design level: the twin description's encoding of the same     *)
 (* value has the same faults and length and is obtained by reversing the    *)
